@@ -67,7 +67,7 @@ func (b *Broker) send(ctx context.Context, id string, responder chan map[string]
 	topics.Range(func(key, value interface{}) bool {
 		size++
 		topic := key.(string)
-		cache := value.(*MessageCache)
+		cache, _ := value.(*MessageCache) // Deny stores a nil value for a withdrawn topic
 		if cache == nil {
 			result[topic] = nil
 			topics.Delete(topic)
@@ -157,7 +157,11 @@ func (b *Broker) offline(ctx context.Context, topics *sync.Map, id string, topic
 	if messages, ok := topics.Load(topic); ok {
 		topics.Delete(topic)
 		if b.OnUnsubscribe != nil {
-			b.OnUnsubscribe(ctx, id, topic, messages.(*MessageCache).Take())
+			var rest []Message
+			if cache, _ := messages.(*MessageCache); cache != nil {
+				rest = cache.Take()
+			}
+			b.OnUnsubscribe(ctx, id, topic, rest)
 		}
 		b.response(ctx, id)
 		return true
